@@ -1087,7 +1087,8 @@ package engine
 //@   nosafety
 //@   let kind = reflect.Value.Kind(o)
 //@   ensures[signed-integers-are-exact] kind == 2 || kind == 3 || kind == 4 || kind == 5 || kind == 6 ==> err == nil && result is Integer && (result as Integer) == reflect.Value.Int(o)
-//@   ensures[floats] kind == 14 ==> err == nil && result is Float && same(result as Float, reflect.Value.Float(o))
+//@   ensures[floats] kind == 14 && finite(reflect.Value.Float(o)) ==> err == nil && result is Float && same(result as Float, reflect.Value.Float(o))
+//@   ensures[non-finite-floats-are-refused] kind == 14 && !finite(reflect.Value.Float(o)) ==> err != nil
 //@   ensures[strings-are-double-quoted-literals] kind == 24 ==> err == nil && result == dq(p.doubleQuotes, reflect.Value.String(o))
 
 //@ func (*Parser).term0
